@@ -1255,19 +1255,20 @@ def run(ctx):
         ctx.sample({'kind': c['f']['kind'], 'degrees': [k['p'] for k in c['f']['kvs']], 'kvs': [[float.fromhex(h) for h in k['kv']] for k in c['f']['kvs']],
                     'tail': c['f']['tail'], 'points_xyz': [[float.fromhex(h) for h in x] for x in c['pts']],
                     'impl_call': [r_.get('ok', {}).get('v') for r_ in results[0].get('eval', {}).get('call', [])][:2]})
+    ctx.cov['exhaustive'] = False
     return ctx.finish(extra={'partial': [
-        'boundary_is_trace: the end-point interpolation of the B-spline basis (Hend) is an explicit hypothesis (not yet a C02 theorem); met on examples',
-        'disk_boundary_on_circle: not proved (tie only); arcs/annulus proved over an arbitrary field with c^2+s^2=1',
-        'composed_chain_rule, UserFunction/_BoundaryFunction of callables, support restriction, cylinderize, copy: checked on the implementation against the exact oracle only',
+        'UserFunction (callables), perturb, find_inverse are not in the Coq model: UserFunction is checked on the implementation against the exact oracle; '
+        '_BoundaryFunction is a theorem for any function (boundary_function_is_trace)',
+        'ComposedFunction / cylinderize / support restriction / copy / disk sides: theorems on the model (composed_routes, composed_chain_rule, cylinderize_spec, '
+        'support_restriction_spec, copy_spec, disk_boundary_on_circle); their tie to the implementation is the Fraction oracle, not a Coq case file',
         'immutability: monitored by snapshots around every call on the implementation, not a theorem',
         'float rounding of the compiled kernels / numpy only bounded by the tie']})
-
 
 META = {
     'technique': 'Rocq proofs over exact rationals / an abstract field (route agreement by induction over the axes, quotient and Leibniz '
                  'identities by field, circle identities by ring) + correspondence of bspline.py/geometry.py with the exact model within derived rounding bounds',
     'level_text': 'see coq/C07/Props.v; tie: every evaluation route, boundary extraction and coefficient operation of generated spline/NURBS '
                   'functions against the exact Qc model (coq/C07/Model.v) and against an independent Fraction oracle',
-    'level_note': 'Trusted: Coq kernel + vm_compute; transcription (coq/C07/Model.v, coq/lib/Bsp.v) validated on every run; apply_tprod/einsum by contract; '
+    'level_note': 'Trusted: Coq kernel + vm_compute; transcription (coq/C07/Model.v, coq/lib/Bsp.v) validated on every run; apply_tprod/einsum by contract; no hypothesis about the B-spline basis is left open (C02 + coq/C07/Ends.v); '
                   'float rounding bounded by the tie only (partial).',
 }
